@@ -13,15 +13,16 @@ import (
 // ---------- C19: conflicting policy sets are always rejected ----------
 
 type C19Case struct {
-	Kind   string
-	NANP   int
-	Files  []C12File // the conflicting input, laid out in files
-	Clean  string    // the same world without the conflict (one file), for diff
-	Names  []string  // every one of these must occur in the error message (names / values of the conflict)
-	AnyOf  []string  // at least one of these (lower-case) must occur in the lower-cased message
-	Gap    int       // number of other documents between the two conflicting ones
-	Single bool      // the conflicting ANP is the only ANP
-	NoWl   bool      `json:",omitempty"` // the input holds no workload
+	Kind    string
+	NANP    int
+	Files   []C12File // the conflicting input, laid out in files
+	Clean   string    // the same world without the conflict (one file), for diff
+	Names   []string  // every one of these must occur in the error message (names / values of the conflict)
+	AnyOf   []string  // at least one of these (lower-case) must occur in the lower-cased message
+	Gap     int       // number of other documents between the two conflicting ones
+	Single  bool      // the conflicting ANP is the only ANP
+	NoWl    bool      `json:",omitempty"` // the input holds no workload
+	StrayNs bool      `json:",omitempty"` // conflicting cluster-scoped objects carry metadata.namespace values
 }
 
 func simpleANP(name string, prio int) AdminPol {
@@ -171,6 +172,16 @@ func genC19(t *rapid.T) *C19Case {
 		}
 		c.Names = []string{"own"}
 	}
+	if (c.Kind == "dupanpname" || c.Kind == "twobanp" || c.Kind == "dupprio") && len(inject) >= 1 && rapid.IntRange(0, 2).Draw(t, "strayns") == 0 {
+		// cluster-scoped objects that carry a metadata.namespace (an API server clears the field; overlays stamp it): the
+		// two conflicting objects carry different values, or only one of them carries one
+		for i := range inject {
+			if i == 0 || rapid.Bool().Draw(t, fmt.Sprintf("strayns%d", i)) {
+				inject[i] = strings.Replace(inject[i], "metadata:\n", fmt.Sprintf("metadata:\n  namespace: team-%c\n", 'a'+i), 1)
+			}
+		}
+		c.StrayNs = true
+	}
 	if (c.Kind == "dupnp" || c.Kind == "dupanpname" || c.Kind == "twobanp") && len(inject) == 2 && rapid.IntRange(0, 2).Draw(t, "sameuid") == 0 {
 		// both copies carry the same metadata.uid, as two exports of one cluster object do (their specs may still differ)
 		for i := range inject {
@@ -289,6 +300,9 @@ func checkC19(c *C19Case, st *VStats) *VFailure {
 	st.Class("conflict " + c.Kind)
 	if c.NoWl {
 		st.Class("conflict in an input without workloads")
+	}
+	if c.StrayNs {
+		st.Class("conflicting cluster-scoped objects with a stray metadata.namespace")
 	}
 	st.Points(4)
 	if c.NANP >= 13 {
